@@ -35,6 +35,30 @@ def load_known():
         return json.load(fh)
 
 
+def load_baseline():
+    p = os.path.join(ROOT, "baseline.json")
+    if not os.path.exists(p):
+        return dict(functions={}, files={})
+    with open(p) as fh:
+        return json.load(fh)
+
+
+def text_changed(r, baseline):
+    """has the text the obligation was generated from changed w.r.t. the recorded baseline (the tree on which
+    every obligation was discharged)?  Function text; for refs.py (class table read from the whole file) the file."""
+    key = f"{r.contract.module}:{r.contract.qualname}"
+    if baseline["functions"].get(key) != r.sha:
+        return True
+    if r.contract.module == "xdeps/refs.py":
+        import hashlib
+        try:
+            with open(os.path.join(os.environ.get("XDEPS_REPO", "/repo"), r.contract.module), "rb") as fh:
+                return hashlib.sha256(fh.read()).hexdigest()[:16] != baseline["files"].get(r.contract.module)
+        except OSError:
+            return True
+    return False
+
+
 def replay_cmd(argv):
     path = argv[0]
     with open(path) as fh:
@@ -119,8 +143,9 @@ def main(argv=None):
         try:
             reg, contracts = pyrun.load_registry(cfg.CONTRACT_MODULES)
             wanted = set(cfg.FUNCTIONS)
-            sel = [c for c in contracts if c.qualname in wanted]
-            missing = wanted - {c.qualname for c in sel}
+            fullname = lambda c: c.qualname + (("@" + c.extra["variant"]) if c.extra.get("variant") else "")
+            sel = [c for c in contracts if fullname(c) in wanted]
+            missing = wanted - {fullname(c) for c in sel}
             if missing:
                 broken.append(f"functions without contract: {sorted(missing)}")
             timeout = 10000 if tier == "quick" else 120000
@@ -131,7 +156,8 @@ def main(argv=None):
             broken.append("proof engine crashed:\n" + traceback.format_exc())
     n_obl = sum(len(r.real) for r in reports)
     n_dis = sum(len(r.real) - len(r.undischarged()) for r in reports)
-    refuted, undecided, stale = [], [], []
+    refuted, undecided, stale, failed = [], [], [], []
+    baseline = load_baseline()
     for r in reports:
         if r.status != "ok":
             stale.append(r)
@@ -143,7 +169,14 @@ def main(argv=None):
             broken.append(f"vacuity probe provable (contradictory hypotheses): {o.name}")
         for o in r.undischarged():
             v = r.results[o.name]
-            (refuted if v["verdict"] == "sat" else undecided).append((r, o, v))
+            if v["verdict"] == "sat":
+                refuted.append((r, o, v))
+            elif text_changed(r, baseline):
+                # discharged on the baseline text, not dischargeable (after a retry with 6x budget, both solvers)
+                # on the current text: reported as a failed obligation
+                failed.append((r, o, v))
+            else:
+                undecided.append((r, o, v))
     if reports and n_obl == 0 and not stale:
         broken.append("zero obligations generated")
 
@@ -168,7 +201,7 @@ def main(argv=None):
                 if ln not in lines:
                     lines.append(ln)
                 continue
-            linked = [o.name for (r, o, v) in refuted + undecided
+            linked = [o.name for (r, o, v) in refuted + failed + undecided
                       if f.get("function") and r.contract.qualname.endswith(f["function"])]
             path = write_replay(prop, nrep, dict(property=prop, key=f["key"], what=f["what"],
                                                  obligation=linked[:8], script=f["script"],
@@ -180,6 +213,17 @@ def main(argv=None):
         ln = f"KNOWN-FINDING: property={prop} {k['what']}"
         if ln not in lines and k.get("always_print", True):
             lines.append(ln)
+    if failed and not violations:
+        for (r, o, v) in failed[:5]:
+            path = write_replay(prop, nrep, dict(
+                property=prop, obligation=o.name, script=None,
+                solver=dict(verdict=v["verdict"], backend=v["backend"], time_s=v["time"], output=v.get("model"),
+                            note="this obligation is discharged on the baseline text of the function (baseline.json); "
+                                 "on the current text z3 and cvc5 both fail to discharge it within 6x the budget"),
+                what=f"obligation {o.name} no longer discharged ({v['verdict']})"))
+            nrep += 1
+            violations.append((path, f"obligation {o.name} no longer discharged on the changed text of "
+                               f"{r.contract.qualname}", " no-failing-input-found"))
     if refuted and not violations:
         # the prover refuted an obligation but the bounded search found no failing input on the real code
         for (r, o, v) in refuted[:5]:
@@ -220,7 +264,7 @@ def main(argv=None):
         backends=backends, solver_time_s=round(solver_time, 2), functions=funcs,
         bounded=list(getattr(cfg, "BOUNDED", [])),
         explanation=getattr(cfg, "EXPLANATION", ""),
-        proof_incomplete=[o.name for (_, o, _) in undecided], proof_refuted=[o.name for (_, o, _) in refuted],
+        proof_incomplete=[o.name for (_, o, _) in undecided], proof_refuted=[o.name for (_, o, _) in refuted + failed],
         proof_stale=[r.contract.qualname for r in stale],
     )
     if rac:
